@@ -92,7 +92,10 @@ def check_names(res, out):
 
 
 def run(ctx):
+    global HOSTS
     res = core.Result()
+    if ctx.tier == 'thorough':
+        HOSTS = HOSTS + tuple(f'real-hashseed-{k}' for k in (2, 3, 5, 99))
     for k in range(ctx.pick(1, 12)):
         run_one(res, ctx, ctx.seed * 1000 + k)
         res.count('workload_seeds')
